@@ -69,6 +69,8 @@ pub enum Act {
     /// the muxer of live connection `c` will answer `poll_close` with an error / stay pending
     /// (released by the drain suffix)
     MuxClose { c: usize, ans: CloseAns },
+    /// dial P1 with an explicit address that carries the /p2p suffix of ANOTHER peer (P2)
+    DialSfx,
 }
 
 #[derive(Clone, Copy, Debug, PartialEq, Eq, Serialize, Deserialize)]
@@ -685,6 +687,9 @@ where
             if !red {
                 v.push(Act::DialAddr);
             }
+            if self.cfg.which == Which::C05 {
+                v.push(Act::DialSfx);
+            }
             v.push(Act::Incoming);
         }
         {
@@ -845,6 +850,17 @@ where
                 let opts = DialOpts::unknown_peer_id().address(a(30)).build();
                 let i = self.conn(opts.connection_id());
                 self.conns[i].out = true;
+                if let Err(e) = self.sys.swarm.dial(opts) {
+                    self.conns[i].sync_err = Some(dial_err_class(&e));
+                }
+            }
+            Act::DialSfx => {
+                // the dial is FOR P1; the address names P2 (e.g. a stale address-book entry)
+                let ad = a(12).with_p2p(peer(2)).expect("p2p suffix");
+                let opts = DialOpts::peer_id(peer(1)).addresses(vec![ad]).condition(PeerCondition::Always).build();
+                let i = self.conn(opts.connection_id());
+                self.conns[i].out = true;
+                self.conns[i].expected = Some(1);
                 if let Err(e) = self.sys.swarm.dial(opts) {
                     self.conns[i].sync_err = Some(dial_err_class(&e));
                 }
@@ -1461,12 +1477,24 @@ pub fn two_execs(c: LifeCfg) -> Vec<LifeCfg> {
     v
 }
 
+/// the plain configurations plus two in which the behaviour denies every other decision at
+/// every decision point (denied connections must keep both event streams in step as well)
+fn with_denials(which: Which) -> Vec<LifeCfg> {
+    let mut v = two_execs(base(which));
+    for d in [Deny::Odd, Deny::Even] {
+        let mut c = base(which);
+        c.deny = DenyMask { pending_in: d, pending_out: d, est_in: d, est_out: d };
+        v.push(c);
+    }
+    v
+}
+
 pub fn run_c01(ctx: &Ctx) -> Outcome {
-    let cfgs = two_execs(base(Which::C01));
+    let cfgs = with_denials(Which::C01);
     run_generic::<Probe>(ctx, Which::C01, cfgs, ctx.tier.pick(4, 5), (ctx.tier.pick(3, 4), ctx.tier.pick(1, 2)))
 }
 pub fn run_c02(ctx: &Ctx) -> Outcome {
-    let cfgs = two_execs(base(Which::C02));
+    let cfgs = with_denials(Which::C02);
     run_generic::<Probe>(ctx, Which::C02, cfgs, ctx.tier.pick(4, 5), (ctx.tier.pick(3, 4), ctx.tier.pick(1, 2)))
 }
 pub fn run_c05(ctx: &Ctx) -> Outcome {
